@@ -201,7 +201,9 @@ func genConfig(r *hx.Rand, t *Table, kind string, minCut int) config {
 				v = c.Global
 			}
 		}
-		if !validIdent(v+"Z") || strings.ContainsAny(v, ",=") {
+		// an empty per-plugin prefix is not a prefix map the property ranges over: goderive refuses it
+		// (fix bcd8b37); the refusal itself is exercised by runDegenerate
+		if v == "" || !validIdent(v+"Z") || strings.ContainsAny(v, ",=") {
 			continue
 		}
 		c.Overrides = append(c.Overrides, [2]string{names[i], v})
